@@ -199,6 +199,24 @@ func cmdCheck(args []string) int {
 	os.MkdirAll(workDir, 0o755)
 	solveAll(allQ, ctx.Reg, workDir, timeout, seed, *tier == "thorough")
 
+	// ---- vacuity guard: the axioms of the trusted base must not be contradictory
+	{
+		all := reg_allAxioms(ctx.Reg)
+		q := &Query{Name: "axioms#cover.consistent", Kind: "cover", Goal: BoolT(true), Meta: map[string]string{}}
+		q.Lines = all
+		if fn, err := writeQuery(workDir, q, false); err == nil {
+			q.File = fn
+			r, _ := raceSolve(fn, 8, seed, []string{"z3-new", "cvc5", "z3"}, false)
+			if r.Status == "unsat" {
+				q.Result = r
+			} else {
+				// sat or unknown: no contradiction found
+				q.Result = SolveResult{Status: "sat", Solver: r.Solver + "(" + r.Status + ")", Ms: r.Ms}
+			}
+			q.Lines = nil
+			allQ = append(allQ, q)
+		}
+	}
 	// ---- aggregate per obligation
 	byName := map[string]*obResult{}
 	var order []string
@@ -497,6 +515,13 @@ func solveAll(qs []*Query, reg *Registry, dir string, timeout, seed int, agree b
 	var wg sync.WaitGroup
 	var mu sync.Mutex
 	failedName := map[string]bool{}
+	coveredName := map[string]bool{}
+	type cacheEnt struct {
+		done chan struct{}
+		res  SolveResult
+		file string
+	}
+	cache := map[string]*cacheEnt{}
 	workers := 12
 	for i := 0; i < workers; i++ {
 		wg.Add(1)
@@ -508,20 +533,64 @@ func solveAll(qs []*Query, reg *Registry, dir string, timeout, seed int, agree b
 				}
 				mu.Lock()
 				skip := failedName[q.Name] && q.Kind == "prove"
+				coverDone := q.Kind == "cover" && coveredName[q.Name]
 				mu.Unlock()
+				if coverDone {
+					q.Result = SolveResult{Status: "sat", Solver: "skipped-already-covered"}
+					q.Path = nil
+					continue
+				}
 				if skip {
 					q.Result = SolveResult{Status: "unsat", Solver: "skipped-after-failure"}
 					q.Lines = nil
 					continue
 				}
-				path := q.Lines
+				full := q.Path.lines()
+				q.Path = nil
+				path := sliceLines(full, q.Goal.S)
 				q.Lines = append(reg.Relevant(path, q.Goal.S, q.Kind == "cover"), path...)
 				if q.Kind == "cover" {
 					q.Lines = dropQuantified(q.Lines)
 				}
+				// identical sliced queries (up to the numbering of path-local symbols) are solved once
+				h := sha256.New()
+				h.Write([]byte(q.Kind))
+				canon := newCanon()
+				for _, l := range q.Lines {
+					h.Write([]byte(canon.apply(l)))
+					h.Write([]byte{10})
+				}
+				h.Write([]byte(canon.apply(q.Goal.S)))
+				key := hex.EncodeToString(h.Sum(nil))
+				mu.Lock()
+				ent, seenBefore := cache[key]
+				if !seenBefore {
+					ent = &cacheEnt{done: make(chan struct{})}
+					cache[key] = ent
+				}
+				mu.Unlock()
+				if seenBefore {
+					<-ent.done
+					if ent.res.Status == "unsat" || q.Kind == "cover" {
+						q.Result = ent.res
+						q.Result.Solver = ent.res.Solver + "(shared)"
+						q.Result.Ms = 0
+						q.File = ent.file
+						q.Lines = nil
+						continue
+					}
+				}
+				finish := func() {
+					if !seenBefore {
+						ent.res = q.Result
+						ent.file = q.File
+						close(ent.done)
+					}
+				}
 				fn, err := writeQuery(dir, q, false)
 				if err != nil {
 					q.Result = SolveResult{Status: "error", Raw: err.Error()}
+					finish()
 					continue
 				}
 				q.File = fn
@@ -546,6 +615,18 @@ func solveAll(qs []*Query, reg *Registry, dir string, timeout, seed int, agree b
 						r.Solver += "+" + r2.Solver
 					}
 				}
+				if q.Kind == "prove" && r.Status != "unsat" && len(path) != len(full) {
+					// the slice may have dropped a needed fact: retry with the whole path
+					q.Lines = append(reg.Relevant(full, q.Goal.S, false), full...)
+					if fn2, err := writeQuery(dir, q, false); err == nil {
+						q.File = fn2
+						r2, _ := raceSolve(fn2, timeout, seed, []string{"z3-new", "cvc5", "z3"}, false)
+						if r2.Status == "unsat" || r.Status != "sat" {
+							r = r2
+						}
+					}
+					path = full
+				}
 				if q.Kind == "prove" && r.Status != "unsat" {
 					mu.Lock()
 					failedName[q.Name] = true
@@ -564,8 +645,14 @@ func solveAll(qs []*Query, reg *Registry, dir string, timeout, seed int, agree b
 						}
 					}
 				}
+				if q.Kind == "cover" && r.Status == "sat" {
+					mu.Lock()
+					coveredName[q.Name] = true
+					mu.Unlock()
+				}
 				q.Result = r
 				q.Lines = nil
+				finish()
 			}
 		}()
 	}
@@ -575,6 +662,132 @@ func solveAll(qs []*Query, reg *Registry, dir string, timeout, seed int, agree b
 	}
 	close(ch)
 	wg.Wait()
+}
+
+// sliceLines keeps the commands in the cone of influence of the goal: the
+// definitions of used symbols and the assertions sharing a path-declared
+// symbol with it (transitively). Dropping assumptions is sound for proving.
+func sliceLines(lines []string, goal string) []string {
+	type ln struct {
+		text string
+		name string // declared / defined symbol
+		kind byte   // d declare, f define, a assert
+		syms []string
+	}
+	ls := make([]ln, len(lines))
+	declared := map[string]bool{}
+	for i, l := range lines {
+		e := ln{text: l}
+		switch {
+		case strings.HasPrefix(l, "(declare-const "):
+			e.kind = 'd'
+			e.name = firstSym(l[len("(declare-const "):])
+			declared[e.name] = true
+		case strings.HasPrefix(l, "(define-fun "):
+			e.kind = 'f'
+			e.name = firstSym(l[len("(define-fun "):])
+			declared[e.name] = true
+			e.syms = symbolsOf(l)
+		default:
+			e.kind = 'a'
+			e.syms = symbolsOf(l)
+		}
+		ls[i] = e
+	}
+	used := map[string]bool{}
+	for _, s := range symbolsOf(goal) {
+		used[s] = true
+	}
+	inc := make([]bool, len(ls))
+	for changed := true; changed; {
+		changed = false
+		for i := range ls {
+			if inc[i] {
+				continue
+			}
+			e := &ls[i]
+			hit := false
+			switch e.kind {
+			case 'd':
+				continue
+			case 'f':
+				hit = used[e.name]
+			case 'a':
+				for _, s := range e.syms {
+					if used[s] && (declared[s] || strings.HasPrefix(s, "H0!") || strings.HasPrefix(s, "|H0!")) {
+						hit = true
+						break
+					}
+				}
+			}
+			if hit {
+				inc[i] = true
+				changed = true
+				for _, s := range e.syms {
+					used[s] = true
+				}
+			}
+		}
+	}
+	out := make([]string, 0, len(ls))
+	for i, e := range ls {
+		if e.kind == 'd' {
+			if used[e.name] {
+				out = append(out, e.text)
+			}
+			continue
+		}
+		if inc[i] {
+			out = append(out, e.text)
+		}
+	}
+	return out
+}
+
+// canon renames the ~N suffixes of path-local symbols by order of first occurrence.
+type canonT struct {
+	m map[string]string
+}
+
+func newCanon() *canonT { return &canonT{m: map[string]string{}} }
+
+func (c *canonT) apply(s string) string {
+	var b strings.Builder
+	i := 0
+	for i < len(s) {
+		if s[i] == '~' {
+			j := i + 1
+			for j < len(s) && s[j] >= '0' && s[j] <= '9' {
+				j++
+			}
+			if j > i+1 {
+				k := s[i:j]
+				r, ok := c.m[k]
+				if !ok {
+					r = "~" + strconv.Itoa(len(c.m))
+					c.m[k] = r
+				}
+				b.WriteString(r)
+				i = j
+				continue
+			}
+		}
+		b.WriteByte(s[i])
+		i++
+	}
+	return b.String()
+}
+
+func firstSym(s string) string {
+	if strings.HasPrefix(s, "|") {
+		if j := strings.Index(s[1:], "|"); j >= 0 {
+			return s[:j+2]
+		}
+	}
+	if j := strings.IndexAny(s, " )"); j >= 0 {
+		return s[:j]
+	}
+	return s
 }
 
 func dropQuantified(lines []string) []string {
@@ -596,4 +809,14 @@ func queryUsesStrings(q *Query) bool {
 		}
 	}
 	return n > 0 || strings.Contains(q.Goal.S, "str.")
+}
+
+func reg_allAxioms(r *Registry) []string {
+	r.mu.Lock()
+	defer r.mu.Unlock()
+	var out []string
+	for _, e := range r.entries {
+		out = append(out, e.line)
+	}
+	return out
 }
